@@ -14,11 +14,13 @@ ROOT = os.path.dirname(os.path.dirname(os.path.abspath(__file__)))
 def main():
     args = sys.argv[1:]
     rnd = ""
-    if args and args[0] == "--round2":
-        rnd, args = "b", args[1:]
+    num = ""
+    if args and args[0] in ("--round2", "--round3"):
+        num = args[0][-1]
+        rnd, args = {"2": "b", "3": "c"}[num], args[1:]
     for pid0 in args:
         pid = pid0 + rnd
-        src = f"/tmp/ben2_{pid0}_out" if rnd else f"/tmp/ben_{pid0}_out"
+        src = f"/tmp/ben{num}_{pid0}_out"
         if not all(os.path.exists(os.path.join(src, f)) for f in ("patch.diff", "meta.json")):
             print(pid, "incomplete deliverable")
             continue
